@@ -37,6 +37,9 @@ var defs = map[string]checkDef{
 	"C01": {Engine: "A", Pkg: "./enga", MinEvals: 200},
 	"C02": {Engine: "A", Pkg: "./enga", MinEvals: 1000},
 	"C03": {Engine: "A", Pkg: "./enga", MinEvals: 200},
+	"C04": {Engine: "A", Pkg: "./enga", MinEvals: 200},
+	"C12": {Engine: "A", Pkg: "./enga", MinEvals: 30000},
+	"C13": {Engine: "A", Pkg: "./enga", MinEvals: 132496, Exhaust: false},
 }
 
 var home = "/verif"
